@@ -356,6 +356,15 @@ Definition run_builtin (n : str) (fc : N) (args : list payload) : M result :=
   | _ => crash "builtin: argument mismatch"
   end.
 
+Fixpoint builtin_args (t : token) (c : N) (ks : list dkind) (vs : list result) : M (list payload) :=
+  match ks, vs with
+  | k :: kr, v :: vr =>
+    v' <- implicit_cast (dt_prim k) v ;;
+    if negb (dt_is (r_type v') k) then rt_error t c else
+    p <- as_payload v' ;; rest <- builtin_args t c kr vr ;; ret (p :: rest)
+  | _, _ => ret []
+  end.
+
 (* ---------------- the evaluator ---------------- *)
 Definition hfuel : nat := 64.        (* nesting depth of record values: heap traversals *)
 
@@ -505,8 +514,8 @@ Fixpoint eval (fuel : nat) (n : node) (c : N) {struct fuel} : M result :=
                                          | ENotDefined, RSimple tk =>
                                            Some (ist <- is_identifier_type c tk true ;;
                                                  if ist then failm fl
-                                                 else if pedantic then pedantic_error t
-                                                 else nid <- new_var f (tval tk) (r_type v) false c ;;
+                                                 else ped_guard pedantic t ;;;
+                                                      nid <- new_var f (tval tk) (r_type v) false c ;;
                                                       add_var c (tval tk) nid ;;; ret nid)
                                          | _, _ => None end
                              | _ => None end) ;;
@@ -565,20 +574,7 @@ Fixpoint eval (fuel : nat) (n : node) (c : N) {struct fuel} : M result :=
     if Nat.eqb (List.length bounds) 0 || negb (Nat.even (List.length bounds)) then crash "array.cpp ArrayDeclareNode abort" else
     iterM (fun id : token => ex <- lookup_arr c (tval id) false ;;
                              match ex with Some _ => rt_error t c | None => ret Datatypes.tt end) ids ;;;
-    dims <- (fix go (bs : list node) (total : Z) : M (list dim) :=
-               match bs with
-               | lo :: hi :: rest =>
-                 lr <- eval f lo c ;;
-                 if negb (dt_is (r_type lr) KInt) then rt_error (node_token lo) c else
-                 hr <- eval f hi c ;;
-                 if negb (dt_is (r_type hr) KInt) then rt_error (node_token hi) c else
-                 l <- as_int lr ;; h <- as_int hr ;;
-                 if h <? l then rt_error (node_token hi) c else
-                 let n := (h - l + 1) mod two64 in
-                 if (n =? 0) || (max_elements / total <? n) then rt_error (node_token hi) c else
-                 ds <- go rest (total * n) ;; ret ((l, h) :: ds)
-               | _ => ret []
-               end) bounds 1 ;;
+    dims <- eval_bounds (fun x => eval f x c) c bounds 1 ;;
     iterM (fun id : token =>
              dty <- get_type c ty true ;;
              if dt_is dty KNone then not_defined_error t c else
@@ -599,8 +595,7 @@ Fixpoint eval (fuel : nat) (n : node) (c : N) {struct fuel} : M result :=
     if ist then rt_error t c
     else upd_ctx c (fun k => ctx_with_comps (x_comps k ++ [(tval name, body)]) k) ;;; ret res_none
   | NIf t comps =>
-    if_chain t c (map (fun p : option node * list node =>
-                             (match fst p with Some e => Some (eval f e c) | None => None end, run_block f (snd p) c)) comps)
+    if_chain t c (map (if_comp (fun x => eval f x c) (fun b => run_block f b c)) comps)
   | NCase t sel cases =>
     v <- eval f sel c ;;
     case_chain (map (fun cc : casecomp =>
@@ -676,8 +671,8 @@ Fixpoint eval (fuel : nat) (n : node) (c : N) {struct fuel} : M result :=
                                        | ENotDefined, RSimple tk =>
                                          Some (ist <- is_identifier_type c tk true ;;
                                                if ist then failm fl
-                                               else if pedantic then pedantic_error tk
-                                               else nid <- new_var f (tval tk) (dt_prim KStr) false c ;;
+                                               else ped_guard pedantic tk ;;;
+                                                    nid <- new_var f (tval tk) (dt_prim KStr) false c ;;
                                                     add_var c (tval tk) nid ;;; ret nid)
                                        | _, _ => None end
                            | _ => None end) ;;
@@ -896,16 +891,7 @@ with resolve (fuel : nat) (r : resolver) (c : N) {struct fuel} : M holder :=
     | HArr aid =>
       a <- get_arr aid ;;
       if negb (Nat.eqb (List.length idx) (List.length (a_dims a))) then rt_error t c else
-      is <- (fix go (es : list node) (ds : list dim) : M (list Z) :=
-               match es, ds with
-               | e :: er, d :: dr =>
-                 ir <- eval f e c ;;
-                 if negb (dt_is (r_type ir) KInt) then rt_error (node_token e) c else
-                 i <- as_int ir ;;
-                 if negb (valid_index d i) then rt_error (node_token e) c else
-                 rest <- go er dr ;; ret (i :: rest)
-               | _, _ => ret []
-               end) idx (a_dims a) ;;
+      is <- eval_indices (fun x => eval f x c) c idx (a_dims a) ;;
       match nth_z (a_elems a) (linear is (a_dims a)) with
       | Some eid => ret (HVar eid)
       | None => crash "array.cpp getElement: index outside the element vector"
@@ -991,11 +977,7 @@ with new_array (fuel : nat) (name : str) (ty : dtype) (dims : list dim) (owner :
   match fuel with O => failm FFuel | S f =>
     let n := total_size dims in
     alloc_cells n owner ;;;
-    elems <- (fix mk (k : nat) : M (list N) :=
-                match k with
-                | O => ret []
-                | S k' => id <- new_var f name ty false owner ;; rest <- mk k' ;; ret (id :: rest)
-                end) (Z.to_nat n) ;;
+    elems <- repeatM (Z.to_nat n) (new_var f name ty false owner) ;;
     aid <- fresh ;;
     put_arr aid (mkArr name ty dims elems) ;;; ret aid
   end
@@ -1040,12 +1022,7 @@ with call_procedure (fuel : nat) (t : token) (name : str) (args : list node) (c 
       d <- gets s_depth ;;
       (if (0 <? max_depth lim) && (max_depth lim <? d + 1) then budget_error t c else ret Datatypes.tt) ;;;
       modify (set_depth (d + 1)) ;;;
-      (fun s => match run_block f (pd_body pd) pc s with
-                | (Ok _, s') => (Ok Datatypes.tt, set_depth d s')
-                | (Fail (FBreak bt), s') => rt_error bt pc (set_depth d s')
-                | (Fail (FContinue ct), s') => rt_error ct pc (set_depth d s')
-                | (Fail fl, s') => (Fail fl, set_depth d s')
-                end) ;;;
+      call_body d pc false (run_block f (pd_body pd) pc) ;;;
       upd_ctx c (ctx_with_switch None) ;;; ret res_none
     end
   end
@@ -1060,14 +1037,7 @@ with call_function (fuel : nat) (t : token) (args : list node) (c : N) {struct f
       vals <- mapM (fun a : node => eval f a c) args ;;
       if negb (Nat.eqb (List.length args) (List.length pkinds)) then rt_error t c else
       fc <- new_ctx (Some c) name true false (dt_prim rk) ;;
-      ps <- (fix go (ks : list dkind) (vs : list result) : M (list payload) :=
-               match ks, vs with
-               | k :: kr, v :: vr =>
-                 v' <- implicit_cast (dt_prim k) v ;;
-                 if negb (dt_is (r_type v') k) then rt_error t c else
-                 p <- as_payload v' ;; rest <- go kr vr ;; ret (p :: rest)
-               | _, _ => ret []
-               end) pkinds vals ;;
+      ps <- builtin_args t c pkinds vals ;;
       upd_ctx c (ctx_with_switch (Some (tline t, tcol t))) ;;;
       d <- gets s_depth ;;
       (if (0 <? max_depth lim) && (max_depth lim <? d + 1) then budget_error t c else ret Datatypes.tt) ;;;
@@ -1082,13 +1052,7 @@ with call_function (fuel : nat) (t : token) (args : list node) (c : N) {struct f
       d <- gets s_depth ;;
       (if (0 <? max_depth lim) && (max_depth lim <? d + 1) then budget_error t c else ret Datatypes.tt) ;;;
       modify (set_depth (d + 1)) ;;;
-      (fun s => match run_block f (fd_body fd) fc s with
-                | (Ok _, s') => (Ok Datatypes.tt, set_depth d s')
-                | (Fail FReturn, s') => (Ok Datatypes.tt, set_depth d s')
-                | (Fail (FBreak bt), s') => rt_error bt fc (set_depth d s')
-                | (Fail (FContinue ct), s') => rt_error ct fc (set_depth d s')
-                | (Fail fl, s') => (Fail fl, set_depth d s')
-                end) ;;;
+      call_body d fc true (run_block f (fd_body fd) fc) ;;;
       fx <- get_ctx fc ;;
       match x_retval fx with
       | None => rt_error (fd_tok fd) fc
